@@ -2175,6 +2175,64 @@ fn main() {
             });
         }
     }
+    // ---- C07: a command named by a raw identifier (r#move) keeps its channels: their message types, reachable through nothing else, are declared
+    {
+        let src = format!("{}#[derive(Serialize, Clone)]\npub struct StepEvent {{ pub detail: StepDetail }}\n#[derive(Serialize, Clone)]\npub struct StepDetail {{ pub n: u32 }}\n#[derive(Serialize, Clone)]\npub struct CopyTick {{ pub done: u64 }}\n#[derive(Serialize, Deserialize)]\npub struct Decoy16 {{ pub n: u32 }}\n\
+            #[tauri::command]\npub fn r#move(on_step: tauri::ipc::Channel<StepEvent>, n: u32) -> u32 {{ n }}\n#[tauri::command]\npub fn copy(on_tick: tauri::ipc::Channel<CopyTick>) -> u32 {{ 0 }}\n#[tauri::command]\npub async fn r#async(r#type: u32) -> u32 {{ 0 }}\n", HDR);
+        let dir = root.join("raw_channel/src");
+        write_files(&dir, &[("lib.rs".to_string(), src)]);
+        for mode in ["none", "zod"] {
+            let files = generate(&dir, &root.join(format!("raw_channel/out_{}", mode)), mode);
+            rep.case("mentioned_project_types_are_declared", &format!("fn r#move(on_step: Channel<StepEvent>, n: u32) with StepEvent {{ detail: StepDetail }}, next to fn copy(on_tick: Channel<CopyTick>) mode={}", mode), &|| {
+                let files = files.as_ref().map_err(|e| e.clone())?;
+                let exp = exports_of(files.get("types.ts").ok_or("no types.ts")?);
+                for n in ["CopyTick", "StepEvent", "StepDetail"] { if !exp.contains(n) && !exp.contains(&format!("{}Schema", n)) { return Err(format!("{} is reachable through a channel of a command but types.ts does not declare it", n)); } }
+                if exp.contains("Decoy16") || exp.contains("Decoy16Schema") { return Err("Decoy16 is declared although nothing reaches it".into()); }
+                Ok("ok".into())
+            });
+        }
+    }
+    // ---- C18: a mapped name inside a tuple replaces that element only: the project types next to it are declared as without the mapping
+    {
+        let src = format!("{}use uuid::Uuid;\nuse std::path::PathBuf;\n#[derive(Serialize, Deserialize, Clone)]\npub struct Item16 {{ pub n: u32 }}\n#[derive(Serialize, Deserialize, Clone)]\npub struct Entry16 {{ pub n: u32 }}\n#[derive(Serialize, Deserialize, Clone)]\npub struct Leaf16 {{ pub n: u32 }}\n#[derive(Serialize, Deserialize, Clone)]\npub struct Mid16 {{ pub n: u32 }}\n\
+            #[derive(Serialize, Deserialize, Clone)]\npub struct Shelf16 {{ pub pairs: HashMap<String, (PathBuf, Leaf16)>, pub triple: Option<(u32, Uuid, Mid16)> }}\n\
+            #[tauri::command]\npub fn newest() -> (Uuid, Item16) {{ todo!() }}\n#[tauri::command]\npub fn listing(s: Shelf16) -> Vec<(Uuid, Entry16)> {{ todo!() }}\n", HDR);
+        let dir = root.join("mapped_tuple/src");
+        write_files(&dir, &[("lib.rs".to_string(), src)]);
+        for mode in ["none", "zod"] {
+            for mapped in [false, true] {
+                rep.case("unmapped_types_are_rendered_as_without_the_mapping", &format!("fn newest() -> (Uuid, Item16); fn listing(s: Shelf16) -> Vec<(Uuid, Entry16)>; Shelf16 {{ pairs: HashMap<String, (PathBuf, Leaf16)>, triple: Option<(u32, Uuid, Mid16)> }} mappings={} mode={}", if mapped { "{Uuid: string, PathBuf: string}" } else { "none" }, mode), &|| {
+                    let out = root.join(format!("mapped_tuple/out_{}_{}", mode, mapped));
+                    let _ = fs::remove_dir_all(&out);
+                    let mut cfg = GenerateConfig::default();
+                    cfg.project_path = dir.to_string_lossy().to_string();
+                    cfg.output_path = out.to_string_lossy().to_string();
+                    cfg.validation_library = mode.to_string();
+                    if mapped { cfg.type_mappings = Some([("Uuid", "string"), ("PathBuf", "string")].iter().map(|(a, b)| (a.to_string(), b.to_string())).collect()); }
+                    generate_from_config(&cfg).map_err(|e| format!("generate_from_config returned Err: {}", e))?;
+                    let exp = exports_of(&fs::read_to_string(out.join("types.ts")).map_err(|e| e.to_string())?);
+                    for n in ["Item16", "Entry16", "Leaf16", "Mid16", "Shelf16"] { if !exp.contains(n) && !exp.contains(&format!("{}Schema", n)) { return Err(format!("{} stands next to a mapped name in a tuple and is not declared; the mapping replaces the mapped element only", n)); } }
+                    Ok("ok".into())
+                });
+            }
+        }
+    }
+    // ---- C09: a type reached on two routes (diamond, triangle) is defined before BOTH of its dependents, whichever is resolved first (16 runs: hash order)
+    {
+        let src = format!("{}#[derive(Serialize, Deserialize, Clone)]\npub struct Top16 {{ pub l: Left16, pub r: Right16 }}\n#[derive(Serialize, Deserialize, Clone)]\npub struct Left16 {{ pub s: Shared16 }}\n#[derive(Serialize, Deserialize, Clone)]\npub struct Right16 {{ pub s: Vec<Shared16> }}\n#[derive(Serialize, Deserialize, Clone)]\npub struct Shared16 {{ pub n: u32 }}\n\
+            #[derive(Serialize, Deserialize, Clone)]\npub struct Apex16 {{ pub b: Base16, pub z: Zed16 }}\n#[derive(Serialize, Deserialize, Clone)]\npub struct Base16 {{ pub z: Option<Zed16> }}\n#[derive(Serialize, Deserialize, Clone)]\npub struct Zed16 {{ pub n: u32 }}\n\
+            #[derive(Serialize, Deserialize, Clone)]\npub struct Direct16 {{ pub w: Wanted16 }}\n#[derive(Serialize, Deserialize, Clone)]\npub struct Wanted16 {{ pub n: u32 }}\n\
+            #[tauri::command]\npub fn top(t: Top16) -> u32 {{ 0 }}\n#[tauri::command]\npub fn apex(a: Apex16) -> u32 {{ 0 }}\n#[tauri::command]\npub fn direct(w: Wanted16, d: Direct16) -> u32 {{ 0 }}\n", HDR);
+        let dir = root.join("two_routes/src");
+        write_files(&dir, &[("lib.rs".to_string(), src)]);
+        rep.case("schemas_defined_before_use", "project=two_routes (Top16 -> {Left16, Right16} -> Shared16; Apex16 -> {Base16 -> Zed16, Zed16}; Wanted16 a parameter and a field of Direct16), 16 runs", &|| {
+            for run in 0..16 {
+                let files = generate(&dir, &root.join(format!("two_routes/out_zod_{}", run)), "zod")?;
+                schemas_defined_before_use(files.get("types.ts").ok_or("no types.ts")?).map_err(|e| format!("run {}: {}", run, e))?;
+            }
+            Ok("16 runs".into())
+        });
+    }
     // ---- C09: forty structs in a chain, every fifth naming an enum: no schema is read before its definition (the order must hold beyond any small-input threshold)
     {
         let mut src = String::from(HDR);
